@@ -82,7 +82,8 @@ Verdict(o) ==
       bad15 == IF ok THEN BadInScope(o) ELSE {}
   IN [ id |-> o.id, nf |-> nf,
        c01 |-> PF(nf, ok /\ o.eq),
-       c06 |-> PF(ok /\ o.case.fam # "casefold", o.dups = <<>> /\ o.faithful /\ o.det),
+       \* (the text must parse back to what the model holds: decoding it and encoding again reproduces it)
+       c06 |-> PF(ok /\ o.case.fam # "casefold", o.dups = <<>> /\ o.faithful /\ o.det /\ o.idem),
        c07total |-> PF(TRUE, o.outcome \in {"ok", "decode-error", "encode-error"}),
        c07idem  |-> PF(ok /\ o.case.fam # "casefold", o.idem),
        c07bytes |-> PF(o.nmut > 0, o.mutbad = <<>>),
